@@ -42,7 +42,7 @@ def run(ctx):
                 n += 1
     if n < 1000:
         raise Infra("vector export too small: %d" % n)
-    res = ctx.harness_json(["c01", vec], timeout=1800)
+    res = ctx.harness_json("framing", ["c01", vec], timeout=1800)
     if res["evaluations"] < n:
         raise Infra("harness replayed %d of %d vectors" % (res["evaluations"], n))
     ctx.traces += res["evaluations"]
